@@ -175,6 +175,8 @@ func readerPlans(t *tape.Tape, n int, thorough bool) []iosim.Plan {
 	for i := 0; i < 3; i++ {
 		plans = append(plans, iosim.Plan{Kind: []iosim.Kind{iosim.ErrAt, iosim.ErrWithByte}[t.Draw(2)], K: t.Draw(n + 1), Timeout: true})
 	}
+	// a reader that answers (0, nil) before every byte
+	plans = append(plans, iosim.Plan{ZeroEach: true, K: t.Draw(n + 1)})
 	// io.ErrUnexpectedEOF in the middle of the text (sticky)
 	for i := 0; i < 2; i++ {
 		plans = append(plans, iosim.Plan{Kind: []iosim.Kind{iosim.ErrAt, iosim.ErrWithByte}[t.Draw(2)], K: t.Draw(n + 1), Unexpected: true})
@@ -557,6 +559,25 @@ func (c C03) Run(t *tape.Tape, opt core.RunOpt) (res core.Result) {
 		for i, n := range names {
 			for _, p := range readerPlans(t, len(texts[i]), thorough && len(texts[i]) < 400) {
 				faults = append(faults, map[string]iosim.FileFault{n: {Read: p, Chunk: 1 + t.Draw(32)}})
+			}
+		}
+		// two (or three) files at fault in one call, in any mix of open / read / close errors
+		if nfiles >= 2 {
+			for k := 0; k < 6; k++ {
+				ff := map[string]iosim.FileFault{}
+				for _, n := range names {
+					switch t.Draw(4) {
+					case 0:
+						ff[n] = iosim.FileFault{OpenErr: true}
+					case 1:
+						ff[n] = iosim.FileFault{CloseErr: true}
+					case 2:
+						ff[n] = iosim.FileFault{Read: iosim.Plan{Kind: iosim.ErrAt, K: t.Draw(8)}, Chunk: 1 + t.Draw(16)}
+					}
+				}
+				if len(ff) >= 2 {
+					faults = append(faults, ff)
+				}
 			}
 		}
 		for fi, ff := range faults {
